@@ -170,12 +170,20 @@ class SpecMixin(object):
       if n in st.env or kind is not None:
         st.env[n] = self.havoc_value(st, st.env.get(n), n, parse_kind(kind) if kind else None)
     self.havoc_heap(st, spec['modifies'])
-    # ghost counters may be advanced by contracted callees inside the body
+    # ghost variables may be advanced by contracted callees / trusted models inside the body; the ones the contract
+    # under verification declares const are specification inputs nothing changes
+    const = getattr(self.unit_contract, 'ghost_const', ())
     for g, v in list(st.ghost.items()):
-      if isinstance(g, str) and not g.startswith('$') and not g.startswith('CONF.') and isinstance(v, VInt):
+      if not isinstance(g, str) or g.startswith('$') or g.startswith('CONF.') or g in const:
+        continue
+      if isinstance(v, VInt):
         st.ghost[g] = VInt(fresh('hv_ghost_' + g, z3.IntSort()))
-      elif isinstance(g, str) and isinstance(v, VSeq):
+      elif isinstance(v, VSeq):
         st.ghost[g] = VSeq(fresh('hv_ghost_' + g, v.t.sort()))
+      elif isinstance(v, VStr):
+        st.ghost[g] = VStr(fresh('hv_ghost_' + g, z3.StringSort()))
+      elif isinstance(v, VBool):
+        st.ghost[g] = VBool(fresh('hv_ghost_' + g, z3.BoolSort()))
 
   def for_with_invariant(self, st, stmt, it, spec):
     label = self.loop_key(stmt)
@@ -242,6 +250,8 @@ class SpecMixin(object):
     h = st
     self.havoc_loop(h, stmt, spec)
     self.assume_invariants(h, spec)
+    h.ghost['$trace'] = ()
+    head = h.fork()        # snapshot of the loop-head state (the body consumes h)
     out = []
     for s, c in self.eval(h, stmt.test):
       if isinstance(c, Raised):
@@ -254,7 +264,7 @@ class SpecMixin(object):
         dec0 = self.eval_spec_value(s2, spec['decreases']) if spec.get('decreases') else None
         for s3, ctl in self.exec_block(s2, stmt.body):
           if ctl is None or ctl[0] == 'continue':
-            self.check_loop_frame(h, s3, spec, label)
+            self.check_loop_frame(head, s3, spec, label)
             self.check_invariants(s3, spec, 'inv-keep', label)
             if dec0 is not None:
               dec1 = self.eval_spec_value(s3, spec['decreases'])
